@@ -127,10 +127,11 @@ def t_fast(step):
     return t
 
 
-def t_chunk_clock(h):
-    """inside a chunk the clock is set before each fill and at the chunk end"""
+def t_chunk_clock(h, allow_new=False):
+    """inside a chunk the clock is set before each fill and at the chunk end; with allow_new the fill hook submits one more order
+    at an arbitrary price: it, too, fills only in a minute whose own range (extended to the previous close) reaches its price"""
     from props import C02 as P2
-    W = P2.match_world(h, 1, allow_new=False)
+    W = P2.match_world(h, 1, allow_new=allow_new, hook_cancels=False)
     rows = []
     for j in range(2):
         v = h.vec(f'm{j}_', 6)
@@ -151,7 +152,8 @@ def t_chunk_clock(h):
     if not out.ok:
         return
     end = ops.arith('+', rows[0].e[0], 120000)
-    h.prove(ops.equal(W.store.f['app'].f['time'], end), 'chunk-clock.clock-at-chunk-end-is-the-end-of-the-last-minute')
+    if not allow_new:
+        h.prove(ops.equal(W.store.f['app'].f['time'], end), 'chunk-clock.clock-at-chunk-end-is-the-end-of-the-last-minute')
     g = True
     for _, tm, part, price in times:
         if not isinstance(part, Vec):
@@ -167,7 +169,8 @@ def t_chunk_clock(h):
                 lo, hi = ops.vmin(lo, rows[j - 1].e[2]), ops.vmax(hi, rows[j - 1].e[2])
             reached = ops.lor(reached, ops.land(ops.equal(part.e[0], r_.e[0]), ops.land(ops.compare('<=', lo, price), ops.compare('<=', price, hi))))
         g = ops.land(g, reached)
-    h.prove(g, 'chunk-clock.clock-at-a-fill-is-the-end-of-the-minute-being-matched')
+    h.prove(g, 'chunk-clock.clock-at-a-fill-is-the-end-of-the-minute-being-matched' if not allow_new else
+            'chunk-clock.an-order-submitted-by-a-fill-hook-fills-only-in-a-minute-whose-range-reaches-its-price')
 
 
 def t_free_names(h):
@@ -221,6 +224,7 @@ def tasks(tier):
     ts = [Task('step.1sym', t_step(False), extra=dict(x), overrides=dict(ov), invariants={}),
           Task('step.2sym', t_step(True), extra=dict(x), overrides=dict(ov), invariants={}),
           Task('chunk-clock', t_chunk_clock, extra=dict(x), overrides=dict(ov), max_paths=20000),
+          Task('chunk-clock.reaction', (lambda h: t_chunk_clock(h, True)), extra=dict(x), overrides=dict(ov), max_paths=20000),
           Task('free-names', t_free_names, extra=dict(x))]
     for step in (1, 3, 5, 15):
         ts.append(Task(f'fast.step{step}', t_fast(step), extra=dict(x), overrides=dict(ov)))
@@ -230,4 +234,8 @@ def tasks(tier):
     import props.C07 as P7
     # the whole finite domain (2^17 - 1 sets of timeframes), concrete evaluation of the real function: complete
     ts.append(Task('min-step.all-subsets', P7.t_min_step('all'), overrides=dict(ov), extra=dict(x, spec_mod=P7.SPEC, task_timeout_s=3600)))
+    # the prologue of the isolated backtest (shared with C11): before the simulation starts the store receives the warm-up argument
+    # only, and the simulator receives the whole input - no row of the candles to be simulated is stored ahead of its minute
+    import props.C11 as P11
+    ts += [t for t in P11.tasks(tier) if t.id.startswith('prologue.')]
     return ts
